@@ -112,7 +112,23 @@ pub(crate) async fn socket_pair(from: IpAddr) -> Result<(TcpStream, TcpStream), 
     let mut attempt = 0;
     let pair = loop {
         attempt += 1;
-        let listener = tokio::net::TcpListener::bind(SocketAddr::new(bind_ip, 0)).await.map_err(|e| format!("bind listener: {e}"))?;
+        // (no ephemeral port free: other explorations on this machine have filled the range with
+        // TIME_WAIT entries; they expire within a minute)
+        let lsock = match bind_ip {
+            IpAddr::V4(_) => tokio::net::TcpSocket::new_v4(),
+            IpAddr::V6(_) => tokio::net::TcpSocket::new_v6(),
+        }
+        .map_err(|e| e.to_string())?;
+        // SO_REUSEADDR: a port whose only other users are TIME_WAIT entries may be taken
+        let _ = lsock.set_reuseaddr(true);
+        let listener = match lsock.bind(SocketAddr::new(bind_ip, 0)).and_then(|_| lsock.listen(8)) {
+            Ok(l) => l,
+            Err(e) if e.kind() == std::io::ErrorKind::AddrInUse && attempt < 900 => {
+                tokio::time::sleep(Duration::from_millis(100)).await;
+                continue;
+            }
+            Err(e) => return Err(format!("bind listener: {e}")),
+        };
         let laddr = listener.local_addr().map_err(|e| e.to_string())?;
         let sock = match from {
             IpAddr::V4(_) => tokio::net::TcpSocket::new_v4(),
@@ -123,13 +139,16 @@ pub(crate) async fn socket_pair(from: IpAddr) -> Result<(TcpStream, TcpStream), 
         let _ = sock.set_reuseaddr(true);
         match sock.bind(SocketAddr::new(from, 0)) {
             Ok(()) => {}
-            Err(e) if e.kind() == std::io::ErrorKind::AddrInUse && attempt < 50 => continue,
+            Err(e) if e.kind() == std::io::ErrorKind::AddrInUse && attempt < 900 => {
+                tokio::time::sleep(Duration::from_millis(20)).await;
+                continue;
+            }
             Err(e) => return Err(format!("bind client {from}: {e}")),
         }
         // the connection completes in the listener's backlog; accept() afterwards
         let client = match sock.connect(laddr).await {
             Ok(c) => c,
-            Err(e) if e.kind() == std::io::ErrorKind::AddrInUse && attempt < 50 => continue,
+            Err(e) if e.kind() == std::io::ErrorKind::AddrInUse && attempt < 900 => continue,
             Err(e) => return Err(format!("connect: {e}")),
         };
         match tokio::time::timeout(Duration::from_secs(10), listener.accept()).await {
